@@ -73,8 +73,17 @@ RetIoErr ==
     /\ cur' = NoOp /\ UNCHANGED <<maxb, wrote>>
     /\ pend' \in {pend, <<>>, IF cur.kind = "send" THEN Append(pend, cur.doc) ELSE pend}
 
+\* The operation is abandoned while its transport write is pending (nothing handed over yet): everything
+\* accepted before stays enqueued; the abandoned send's own message was never accepted, it may or may not
+\* go out with a later write (cancel safety of send_* / flush).
+RetCancelled ==
+    /\ cur.kind \in {"send", "flush"} /\ ~wrote
+    /\ cur' = NoOp /\ UNCHANGED <<maxb, wrote>>
+    /\ pend' \in {pend} \cup (IF cur.kind = "send" /\ ~cur.bad /\ Bytes(pend) + cur.doc.len + 1 <= maxb
+                             THEN {Append(pend, cur.doc)} ELSE {})
+
 ONext(docs) ==
     \/ \E kd \in Kinds, d \in docs, b \in BOOLEAN : Begin(kd, d, b)
     \/ Write(IF cur.kind = "send" THEN Append(pend, cur.doc) ELSE pend, 0)
-    \/ RetOk \/ RetOverflow \/ RetRefused \/ RetIoErr
+    \/ RetOk \/ RetOverflow \/ RetRefused \/ RetIoErr \/ RetCancelled
 =============================================================================
